@@ -225,8 +225,6 @@ partial def rdModule (tab : AlignTab) (ws : List String) (m : Module) : Except S
     | a :: r => do
       let (mn, r) ← rdNat r
       let (mx, r) ← rdNat r
-      -- the real printer treats an all-zero memory as absent
-      if n.isNone && a = "i32" && mn = 0 && mx = 0 then .error "outside zero-memory" else
       rdModule tab r { m with memory := some ⟨n, a = "i64", mn, optMax mx⟩ }
     | [] => .error "eof"
   | "B" :: r => do
